@@ -508,6 +508,9 @@ pub struct C07State {
     pub trace: Vec<Value>,
     pub purged_possible: bool,
     pub crash_inside: bool,
+    /// greatest stamp (ms) named by any request of the history, acknowledged or not: a tombstone can only
+    /// have been purged if something at least one forgiveness period newer was ever seen
+    pub max_stamp_ms: u64,
 }
 
 /// Phase 1: the request history up to the crash point, on a running node.
@@ -531,6 +534,7 @@ async fn c07_phase1<I: Backing>(rng: &mut StdRng, i: u64, out: &mut CaseOut, inn
     // (keyspace, id, stamp, tombstone) made visible by an acknowledged request
     let mut visible: Vec<(String, Key, HLCTimestamp, bool)> = Vec::new();
     let mut acked_deletes: Vec<(String, Key, HLCTimestamp)> = Vec::new();
+    let mut max_stamp_ms = 0u64;
     for k in 0..nreq {
         let ksn = *keyspaces.choose(&mut g.rng).unwrap();
         let last = k + 1 == nreq;
@@ -539,6 +543,17 @@ async fn c07_phase1<I: Backing>(rng: &mut StdRng, i: u64, out: &mut CaseOut, inn
             ctl.park_after.store(g.rng.gen_range(0..3), Ordering::SeqCst);
         }
         trace.push(json!({"keyspace": ksn, "request": req_json(&req), "crash_inside": last && crash_inside}));
+        {
+            let stamps: Vec<HLCTimestamp> = match &req {
+                Req::Set { ts, .. } | Req::RpcPut { ts, .. } | Req::Del { ts, .. } | Req::RpcRemove { ts, .. } => vec![*ts],
+                Req::MultiSet { docs, .. } | Req::RpcMultiPut { docs } | Req::MultiDel { docs, .. } | Req::RpcMultiRemove { docs } => docs.iter().map(|d| d.1).collect(),
+                Req::RpcBatch { puts, dels } => puts.iter().chain(dels.iter()).map(|d| d.1).collect(),
+                Req::Purge => vec![],
+            };
+            for t in stamps {
+                max_stamp_ms = max_stamp_ms.max(t.datacake_timestamp().as_millis() as u64);
+            }
+        }
         let fut = node.send(ksn, &req);
         let finished = if real_time {
             tokio::time::timeout(Duration::from_millis(150), fut).await
@@ -610,7 +625,7 @@ async fn c07_phase1<I: Backing>(rng: &mut StdRng, i: u64, out: &mut CaseOut, inn
     // ---- stop: the group, its actors and the server are dropped (or the process exits)
     node.stop();
     ctl.park_after.store(-1, Ordering::SeqCst);
-    Ok(C07State { acked_deletes, visible, trace, purged_possible, crash_inside })
+    Ok(C07State { acked_deletes, visible, trace, purged_possible, crash_inside, max_stamp_ms })
 }
 
 /// Phase 2: a fresh node on the same storage; oracle.
@@ -640,9 +655,12 @@ async fn c07_phase2<I: Backing>(i: u64, out: &mut CaseOut, inner2: Arc<I>, st: &
         // tombstone which superseded this mutation
         // (on the real-time runtimes the purge can even run between the acknowledgement of the
         // delete and this monitor's look at storage, so acknowledged deletes count, seen or not)
-        let superseded_by_a_delete = visible.iter().any(|(k2, id2, t2, tomb2)| k2 == ksn && id2 == id && *tomb2 && t2 > t)
-            || st.acked_deletes.iter().any(|(k2, id2, t2)| k2 == ksn && id2 == id && t2 > t);
-        let purged_ok = st.purged_possible && (*tomb || superseded_by_a_delete);
+        // ... and only a tombstone at least one forgiveness period older than the newest stamp the
+        // history ever named can have been purged at all
+        let purgeable = |td: &HLCTimestamp| td.datacake_timestamp().as_millis() as u64 + 3_590_000 <= st.max_stamp_ms;
+        let superseded_by_a_purgeable_delete = visible.iter().any(|(k2, id2, t2, tomb2)| k2 == ksn && id2 == id && *tomb2 && t2 > t && purgeable(t2))
+            || st.acked_deletes.iter().any(|(k2, id2, t2)| k2 == ksn && id2 == id && t2 > t && purgeable(t2));
+        let purged_ok = st.purged_possible && ((*tomb && purgeable(t)) || superseded_by_a_purgeable_delete);
         if !newer_or_same && !purged_ok {
             out.violate("C07:acknowledged-visible-mutation-lost-by-restart", json!({"keyspace": ksn, "id": id, "stamp": ts_json(*t), "tombstone": tomb, "trace": trace}));
         }
@@ -698,7 +716,7 @@ pub fn c07_lmdb_child(args: &Args) {
                 let v = json!({
                     "acked_deletes": st.acked_deletes.iter().map(|(k, id, t)| json!([k, id, t.as_u64()])).collect::<Vec<_>>(),
                     "visible": st.visible.iter().map(|(k, id, t, tomb)| json!([k, id, t.as_u64(), tomb])).collect::<Vec<_>>(),
-                    "trace": st.trace, "purged_possible": st.purged_possible, "crash_inside": st.crash_inside,
+                    "trace": st.trace, "purged_possible": st.purged_possible, "crash_inside": st.crash_inside, "max_stamp_ms": st.max_stamp_ms,
                     "counts": out.counts.iter().map(|(k, n)| json!([k, n])).collect::<Vec<_>>(),
                 });
                 std::fs::write(&state_path, serde_json::to_vec(&v).unwrap()).unwrap();
@@ -722,6 +740,7 @@ pub fn c07_lmdb_child(args: &Args) {
             visible: v["visible"].as_array().unwrap().iter().map(|e| (e[0].as_str().unwrap().to_string(), e[1].as_u64().unwrap(), HLCTimestamp::from_u64(e[2].as_u64().unwrap()), e[3].as_bool().unwrap())).collect(),
             trace: v["trace"].as_array().cloned().unwrap_or_default(),
             purged_possible: v["purged_possible"].as_bool().unwrap_or(true),
+            max_stamp_ms: v["max_stamp_ms"].as_u64().unwrap_or(u64::MAX),
             crash_inside: v["crash_inside"].as_bool().unwrap_or(false),
         };
         for c in v["counts"].as_array().cloned().unwrap_or_default() {
